@@ -63,6 +63,9 @@ def corner_cases(latmax):
         for i, d in enumerate(dates):
             lon = (37.0 * i + lat) % 360 - 180
             gmt = max(-12.0, min(12.0, round(lon / 15.0)))
+            if i % 4 == 3:
+                # a clock far from the meridian ("all longitudes / GMT offsets"): Dhuhr late or early in the civil day, events wrap past midnight
+                gmt = max(-12.0, min(12.0, gmt + (10.0 if gmt < 0 else -10.0)))
             for school, aF, aI in (("Shafi", 18.0, 17.0), ("Hanafi", 18.0, 17.0), ("Hanafi", 9.0, 21.0), ("Shafi", 21.0, 9.0)):
                 eph.append({"api": "k_ephemeris", "date": d, "gmt": gmt, "lat": lat, "lon": lon, "elev": 0.0})
                 metas.append((lat, lon, aF, aI, school))
